@@ -165,4 +165,40 @@ def extra_checks(tier, seed, active_known):
 	if fails:
 		x.violation = {'what': fails[0]['what'], 'function': 'rogw/tranp/semantics/procedure.py:Procedure / rogw/tranp/syntax/node/node.py:Node.procedural', 'inputs': fails[0], 'clause': 'event(n)[k] == results(getattr(n, k))'}
 		x.finding_key = 'procedure-monitor'
-	return [closed, x]
+	progs = REAL_HANDLER_PROGRAMS
+	res = _transpile_worker(progs)
+	bad = [(src, r) for src, r in zip(progs, res) if not r['ok']]
+	y = Extra(name='the real transpiler handlers (which query the symbol tables while the tree is processed) end every run with exactly one result', kind='bounded', ok=not bad, cases=len(progs),
+		bound=f'{len(progs)} programs through Py2Cpp: generic base with a typed member read through a subclass, with-statements with one and two items, nested classes, enum, comprehension, closure', detail=f'{len(bad)} failing programs',
+		samples=[{'program': progs[0][:80], 'verdict': 'transpiled'}])
+	y.distinct = len(progs)
+	if bad:
+		y.violation = {'what': f'processing a valid program fails: {bad[0][1]["error"][:200]}', 'function': 'rogw/tranp/semantics/procedure.py with the Py2Cpp handlers', 'inputs': {'program': bad[0][0], 'error': bad[0][1]['error']}, 'clause': 'the run ends with exactly one result'}
+		y.finding_key = 'real-handlers'
+	return [closed, x, y]
+
+
+REAL_HANDLER_PROGRAMS = [
+	"from typing import Generic, TypeVar\n\nT = TypeVar('T')\n\n\nclass Base(Generic[T]):\n\tvalue: T\n\n\tdef __init__(self, value: T) -> None:\n\t\tself.value = value\n\n\nclass Sub(Base[int]):\n\tdef get(self) -> int:\n\t\treturn self.value\n\n\tdef twice(self) -> int:\n\t\treturn self.value * 2\n",
+	"def f(path: str) -> None:\n\twith open(path) as a:\n\t\tx = a\n",
+	"def g(p: str, q: str) -> None:\n\twith open(p) as a, open(q) as b:\n\t\tx = a\n\t\ty = b\n",
+	"class Outer:\n\tclass Inner:\n\t\tn: int\n\n\t\tdef __init__(self, n: int) -> None:\n\t\t\tself.n = n\n\n\tdef make(self) -> int:\n\t\treturn Outer.Inner(1).n\n",
+	"from enum import Enum\n\n\nclass E(Enum):\n\tA = 1\n\tB = A + 1\n\n\ndef h(n: int) -> int:\n\tdef inner(k: int) -> int:\n\t\treturn k + n\n\txs = [inner(i) for i in range(n) if i != E.B.value]\n\treturn len(xs)\n",
+]
+
+
+def _transpile_worker(programs):
+	import json
+	import os
+	import shutil
+	import subprocess
+	from twins.pipeline import PY313, REPO, SITE
+	env = dict(os.environ)
+	env['PYTHONPATH'] = f'{REPO}:{SITE}'
+	env['PYVC_REPO'] = REPO
+	p = subprocess.run([PY313, os.path.join(os.path.dirname(os.path.dirname(os.path.abspath(__file__))), 'twins', 'transpile_worker.py'), json.dumps(programs)], env=env, capture_output=True, text=True, timeout=1200)
+	shutil.rmtree(os.path.join(REPO, '.cache'), ignore_errors=True)
+	for ln in p.stdout.split('\n'):
+		if ln.startswith('RESULT '):
+			return json.loads(ln[7:])
+	raise RuntimeError(f'transpile worker gave no result: rc={p.returncode} {p.stderr[-400:]}')
